@@ -38,6 +38,7 @@ type c40Runner struct {
 	sm    multiraft.StateMachine
 	node  *cluster.Node
 	index uint64
+	rev   uint64
 	err   error
 }
 
@@ -67,6 +68,7 @@ func newC40Runner() *c40Runner {
 		r.err = err
 		return r
 	}
+	r.rev = 1
 	r.node, err = cluster.VerifNewMessageEventNode(c40HashSlots, 4096, r.propose)
 	if err != nil {
 		r.err = err
@@ -371,6 +373,27 @@ func (r *c40Runner) Step(op string) string {
 		}
 		r.node.VerifLoseMessageEventStreamCache(4096)
 		return "ok"
+	case "rt":
+		if len(f) != 4 || len(f[3]) != c40HashSlots {
+			return "bad-op"
+		}
+		l1, e1 := strconv.ParseUint(f[1], 10, 8)
+		l2, e2 := strconv.ParseUint(f[2], 10, 8)
+		if e1 != nil || e2 != nil || l1 > 2 || l2 > 2 || l1 == 0 || l2 == 0 {
+			return "bad-op"
+		}
+		owners := make([]uint32, c40HashSlots)
+		for i, c := range f[3] {
+			if c != '1' && c != '2' {
+				return "bad-op"
+			}
+			owners[i] = uint32(c - '0')
+		}
+		r.rev++
+		if err := r.node.VerifUpdateRoute(r.rev, l1, l2, owners); err != nil {
+			return c40Err(err)
+		}
+		return "ok"
 	case "q":
 		if len(f) != 4 {
 			return "bad-op"
@@ -398,6 +421,13 @@ func (r *c40Runner) Step(op string) string {
 		if f[0] == "ev" {
 			res, err = r.shard(ev.ChannelID).AppendMessageEvent(ctx, ev)
 		} else {
+			// the forward-to-leader RPC path is out of scope: only the local-leader path is driven
+			if route, rerr := r.node.RouteKey(strings.TrimSpace(ev.ChannelID)); strings.TrimSpace(ev.ChannelID) != "" && (rerr != nil || route.Leader != 1) {
+				if _, nerr := c40Normalize(ev); nerr {
+					return "invalid"
+				}
+				return "notleader"
+			}
 			res, err = r.node.AppendMessageEvent(ctx, ev)
 		}
 		if err != nil {
@@ -446,4 +476,20 @@ func (r *c40Runner) Step(op string) string {
 		return "ok " + strings.Join(trips, ";") + " " + r.obs(evs[0].ChannelID, evs[0].ChannelType, evs[0].ClientMsgNo)
 	}
 	return "bad-op"
+}
+
+// c40Normalize reports whether the event is refused by normalisation (the check that precedes
+// routing in Node.AppendMessageEvent); used only to order `invalid` before `notleader`.
+func c40Normalize(ev metadb.MessageEventAppend) (metadb.MessageEventAppend, bool) {
+	t := strings.ToLower(strings.TrimSpace(ev.EventType))
+	bad := strings.TrimSpace(ev.ChannelID) == "" || ev.ChannelType <= 0 || strings.TrimSpace(ev.ClientMsgNo) == "" || strings.TrimSpace(ev.EventID) == "" || t == ""
+	if !bad {
+		bad = true
+		for _, k := range c40Types {
+			if k == t {
+				bad = false
+			}
+		}
+	}
+	return ev, bad
 }
